@@ -36,9 +36,12 @@ impl ModelChain {
             let mut o = 0;
             while o < 2 {
                 kani::assume(m.cnt[p][o] as usize <= kmax);
+                if p + o == 0 { kani::assume(m.cnt[p][o] == 0); }
                 let mut k = 0;
                 while k < MC_K {
-                    kani::assume(m.dist[p][o][k] >= 1 && m.dist[p][o][k] as usize <= p + o);
+                    if k < m.cnt[p][o] as usize {
+                        kani::assume(m.dist[p][o][k] >= 1 && m.dist[p][o][k] as usize <= p + o);
+                    }
                     k += 1;
                 }
                 o += 1;
@@ -181,7 +184,7 @@ fn match_total(four: bool, offset1: bool) {
         // match_token_1(match_token.len(), max_depth): a match of that length exists at offset 0,
         // remaining >= len + 2, max_depth = max_chain or max_chain >> 2
         let pl: u32 = kani::any();
-        kani::assume(pl >= 3 && input.remaining() >= pl + 2);
+        kani::assume(pl >= 3 && pl <= 258 && input.remaining() >= pl + 2);
         let shifted: bool = kani::any();
         let d = if shifted { p.max_chain >> 2 } else { p.max_chain };
         // recommend(): good_length >= 4 rows have max_chain >= 16 only together with lazy matching
